@@ -36,7 +36,8 @@ LEVEL_TEXT = ("Exploration: hundreds (quick) to thousands (thorough) of generate
               " Directory roots are spelled with trailing / doubled separators and relative to the working directory."
               " Some directory entries are symbolic links to files stored elsewhere."
               " Slices of populations made of slices; chaining without intersection."
-              " Extension filters given explicitly next to extension-less files.")
+              " Extension filters given explicitly next to extension-less files."
+              " Populations built by the older constructor from a list of file names (lazy, and eager when the caller asks: every file exactly once at construction, never again); directories of extended-format files through from_eswc; population transforms whose outputs carry no source.")
 LEVEL_NOTE = ("'The i-th file' is the i-th entry of the library's own listing (Population.find_swcs), "
               "which must be a permutation of the layout's .swc files; the order of a directory walk "
               "is the operating system's. Population.map runs in worker processes and is decided at "
@@ -55,7 +56,9 @@ REQUIRED = ["histories", "operations", "open_log_checks", "index_ops", "negative
             "to_population_checked", "map_checked", "map_verbose_checked", "map_then_read_audited", "listing_order_injected",
             "large_populations", "roots_spelled_differently", "slices_of_sliced_populations",
             "populations_without_intersection", "extension_given_explicitly",
-            "transform_checked", "tap_load", "symbolic_link_entries",
+            "transform_checked", "tap_load", "symbolic_link_entries", "constructed_from_name_list",
+            "eager_constructions", "eswc_populations", "eswc_populations_matched",
+            "transform_outputs_without_source",
             "audit_file_opens"]
 FLOOR = {"quick": 250, "thorough": 20000}
 SHARDS = {"quick": 8, "thorough": 16}
@@ -164,10 +167,22 @@ def check_history(ctx, case, tmp):
         warnings.simplefilter("ignore")
         rt_ = _spell(ctx, root, np.random.default_rng(case["seed"] + 5))
         how = case["seed"] % 3  # the extension left to its default, by keyword, by position
-        pop = Population.from_swc(rt_) if how == 0 else (
-            Population.from_swc(rt_, ext=".swc") if how == 1 else Population.from_swc(rt_, ".swc"))
-        if how:
-            ctx.count("extension_given_explicitly")
+        ctor = case.get("ctor", "from_swc")
+        eager = False
+        if ctor == "from_swc":
+            pop = Population.from_swc(rt_) if how == 0 else (
+                Population.from_swc(rt_, ext=".swc") if how == 1 else Population.from_swc(rt_, ".swc"))
+            if how:
+                ctx.count("extension_given_explicitly")
+        else:
+            # the older constructor: a plain list of file names, loaded on demand (the default) or
+            # all at once when the caller says so
+            names_ = Population.find_swcs(rt_)
+            eager = ctor == "list-eager"
+            pop = Population(names_, root=rt_) if not eager else (
+                Population(names_, lazy_loading=False, root=rt_) if how else
+                Population(names_, False, rt_))
+            ctx.count("constructed_from_name_list")
     listing = [os.path.relpath(p, root) for p in Population.find_swcs(root)]
     if sorted(listing) != sorted(files):
         return ctx.violation("listing-wrong", f"find_swcs lists {sorted(listing)[:5]}..., the "
@@ -177,6 +192,10 @@ def check_history(ctx, case, tmp):
         return ctx.violation("length-wrong", f"len(population) = {len(pop)} for {n} swc files", case)
     requested = set()
     first = listing[0] if n else None
+    if eager:
+        # the caller asked for everything at construction: every file exactly once, then never
+        requested.update(listing)
+        ctx.count("eager_constructions")
 
     def verify_log(after):
         ctx.count("open_log_checks")
@@ -621,7 +640,11 @@ def check_transform(ctx, case, tmp):
         listing = [os.path.relpath(p, root) for p in Population.find_swcs(root)]
         before = [contracts.fingerprint(t) for t in pop]
         dx = float(rng.integers(1, 9))
-        out = PopulationTransform(Translate(dx, 0, 0))(pop)
+        if case["seed"] % 3 == 0:
+            out = PopulationTransform(_Rebuild(dx))(pop)  # outputs come without a source
+            ctx.count("transform_outputs_without_source")
+        else:
+            out = PopulationTransform(Translate(dx, 0, 0))(pop)
     ctx.count("transform_checked")
     if len(out) != len(listing):
         return ctx.violation("transform-length", f"{len(out)} outputs for {len(listing)} trees", case)
@@ -638,7 +661,91 @@ def check_transform(ctx, case, tmp):
                                               "trees", case)
 
 
-KINDS = {"history": check_history, "chain": check_chain, "populations": check_populations,
+def check_eswc(ctx, case, tmp):
+    """Directories of extended-format files: Population.from_eswc / Populations.from_eswc list the
+    .eswc files only, load them lazily, and index like the listing."""
+    from swcgeom.core import Population, Populations
+
+    rng = np.random.default_rng(case["seed"])
+    roots, sets = [], []
+    for r in range(2):
+        root = os.path.join(tmp, f"e{r}")
+        os.makedirs(os.path.join(root, "sub"))
+        files = {}
+        for i in range(int(rng.integers(2, 7)) if r == 0 else 0):
+            rel = os.path.join("sub" if rng.random() < .4 else "", f"cell{i:02d}.eswc")
+            files[rel] = (2 + i, float(i))
+        if r == 1:
+            files = {rel: (n + 20, m + 500.0) for rel, (n, m) in sets[0].items() if rng.random() < .8}
+        for rel, (n, marker) in files.items():
+            with open(os.path.join(root, rel), "w") as f:
+                f.write("# extended\n")
+                for j in range(n):
+                    f.write(f"{j + 1} {1 if j == 0 else 3} {marker} {j} 0 1 {j if j else -1} "
+                            f"{j} 0 {j * 3} 7 {j % 2} {j}.5\n")
+        with open(os.path.join(root, "plain.swc"), "w") as f:  # decoys of the other format
+            f.write("1 1 0 0 0 1 -1\n")
+        roots.append(root)
+        sets.append(files)
+    audit.start(tmp)
+    with warnings.catch_warnings():
+        warnings.simplefilter("ignore")
+        own = ["weight"]
+        pop = Population.from_eswc(roots[0], extra_cols=own) if case["seed"] % 2 else \
+            Population.from_eswc(roots[0], ".eswc", own)
+        listing = [os.path.relpath(p, roots[0]) for p in Population.find_swcs(roots[0], ".eswc")]
+        ctx.count("eswc_populations")
+        if own != ["weight"]:
+            return ctx.violation("caller-list-mutated", f"from_eswc changed the caller's list of "
+                                                        f"column names to {own}", case)
+        if sorted(listing) != sorted(sets[0]) or len(pop) != len(listing):
+            return ctx.violation("length-wrong", f"from_eswc: {len(pop)} trees, the directory holds "
+                                                 f"{len(sets[0])} .eswc files", case)
+        opened = Counter(os.path.relpath(os.path.realpath(p), roots[0])
+                         for p, _ in audit.snapshot() if p.endswith(".eswc"))
+        if set(opened) - {listing[0]}:
+            return ctx.violation("eager-load", f"from_eswc opened {sorted(opened)} at construction",
+                                 case)
+        order = rng.permutation(len(listing)).tolist()
+        for i in order + order[:2]:
+            t = pop[i - len(listing) if i % 2 else i]
+            if not _is_tree_of(t, roots[0], listing[i], sets[0]):
+                return ctx.violation("wrong-tree", f"from_eswc: pop[{i}] is {t.source}, file #{i} is "
+                                                   f"{listing[i]}", case)
+        opened = Counter(os.path.realpath(p) for p, _ in audit.snapshot() if p.endswith(".eswc"))
+        twice = [p for p, c in opened.items() if c > 1]
+        if twice:
+            return ctx.violation("file-read-twice", f"{os.path.basename(twice[0])} opened "
+                                                    f"{opened[twice[0]]} times", case)
+        pops = Populations.from_eswc(roots, own)
+        inter = set(sets[0]) & set(sets[1])
+        ctx.count("eswc_populations_matched")
+        if len(pops) != len(inter):
+            return ctx.violation("populations-length", f"from_eswc: {len(pops)} rows for an "
+                                                       f"intersection of {len(inter)} files", case)
+        for i in range(len(pops)):
+            row = pops[i]
+            rels = [os.path.relpath(t.source, roots[j]) for j, t in enumerate(row)]
+            if len(set(rels)) != 1 or rels[0] not in inter or any(
+                    not _is_tree_of(t, roots[j], rels[0], sets[j]) for j, t in enumerate(row)):
+                return ctx.violation("populations-row", f"from_eswc: row {i} holds {rels}", case)
+    audit.stop()
+
+
+class _Rebuild:
+    """A user transform that returns a brand-new tree (no source of its own)."""
+
+    def __init__(self, dx):
+        self.dx = dx
+
+    def __call__(self, t):
+        from swcgeom.core import Tree
+
+        return Tree(t.number_of_nodes(), id=t.id().copy(), pid=t.pid().copy(), type=t.type().copy(),
+                    x=t.x() + self.dx, y=t.y().copy(), z=t.z().copy(), r=t.r().copy())
+
+
+KINDS = {"history": check_history, "eswc": check_eswc, "chain": check_chain, "populations": check_populations,
          "map": check_map, "transform": check_transform}
 
 
@@ -664,6 +771,10 @@ def run(ctx):
             seed = int(rng.integers(0, 2**31 - 1))
             if u < 5:
                 case = {"kind": "history", "seed": seed, "nops": int(rng.integers(5, 61))}
+                if k % 20 in (1, 12):
+                    case["ctor"] = "list-lazy" if k % 20 == 1 else "list-eager"
+                if k % 40 == 23:
+                    case = {"kind": "eswc", "seed": seed}
             elif u < 8:
                 case = {"kind": "chain", "seed": seed,
                         "form": str(rng.choice(["list", "generator", "nested"]))}
